@@ -118,7 +118,7 @@ class DNSQuestion(DNSEntry):
 
     def answered_by(self, rec: 'DNSRecord') -> bool:
         """Returns true if the question is answered by the record"""
-        return self.class_ == rec.class_ and self.type in (rec.type, _TYPE_ANY) and self.name == rec.name
+        return self.class_ == rec.class_ and self.type in (rec.type, _TYPE_ANY) and self.key == rec.key
 
     def __hash__(self) -> int:
         return self._hash
